@@ -124,6 +124,11 @@ v('c01-no-indent-strip', 'break', ['C01', 'C03'], R, ("                        i
 v('c01-second-yield', 'break', ['C01', 'C03'], R, ('                prev_container_level = level\n', '                prev_container_level = level\n                yield section\n'))
 v('c05-renamed-param', 'break', ['C05'], W, ('def write_diff(self, content, diff_type=None,', 'def write_diff(self, content, type_=None,'), ('if (diff_type is not None and\n            diff_type not in DiffType.VALID_VALUES):', 'if (type_ is not None and\n            type_ not in DiffType.VALID_VALUES):'), ("option='diff_type',\n                value=diff_type,", "option='diff_type',\n                value=type_,"), ('type=diff_type,', 'type=type_,'))
 v('c05-pops-line-endings', 'break', ['C05', 'C06'], DR, ("        options.pop('length', None)\n", "        options.pop('length', None)\n        options.pop('line_endings', None)\n"))
+v('c05-skip-short-content', 'break', ['C05'], DW, ('        if content:\n', '        if content and len(content) > 1:\n'))
+v('c05-skip-diff-sections', 'break', ['C05'], DW, ('        if content:\n', "        if content and section.section_name != 'diff':\n"))
+v('c05-benign-early-return', 'benign', ['C05', 'C06', 'C18'], DW,
+  ("        if content:\n            write_func = getattr(writer, 'write_%s' % section.section_name)\n            write_func(content, **self._get_options(section))\n",
+   "        if not content:\n            return\n\n        method = getattr(writer, 'write_%s' % section.section_name)\n        method(content, **self._get_options(section))\n"))
 v('c05-handler-removed', 'break', ['C05'], DR, ('                Section.FILE_DIFF: self._read_diff_section,\n', ''))
 v('c06-new-default', 'break', ['C06'], W, ('def write_diff(self, content, diff_type=None,', "def write_diff(self, content, diff_type='text',"))
 
